@@ -35,8 +35,11 @@ CONSTANTS Mods,        \* module names
           Kinds,       \* source kinds offered to register / deregister: subset of {"fd", "tmr", "sgn", "path", "pid", "task", "thr"}
           Keys,        \* identifying values per kind (small integers; the driver maps them to descriptors, periods, signals, ...)
           SrcOpts,     \* option records [os |-> oneshot, ac |-> autoclose] offered at registration
+          EvKinds,     \* kinds of poll events that can occur in this configuration: subset of {"ps", "fd", "tmr", "tb", "bt", "tick"}
           MaxBatch,    \* at most this many events in one poll batch
           Errnos,      \* errno values a callback may leave behind (SetErrno)
+          TbVals,      \* <<rate, burst>> pairs offered to m_mod_set_tokenbucket (rate 0 = remove the limit)
+          TickVals,    \* values offered to m_ctx_set_tick (0 = off, else a period id)
           Targets,     \* modules on which subscribe / batch / stash / become / state setters are offered in this configuration
           AutoVals,    \* auto-free flag values offered to the send calls
           Senders,     \* modules that issue tell / publish / broadcast / pill in this configuration
@@ -48,6 +51,7 @@ vars == <<S>>
 
 NEG == -1
 EEXIST == -17
+EAGAIN == -11
 NoMod == ""
 SysTopics == {"CTX_STARTED", "CTX_STOPPED", "MOD_STARTED", "MOD_STOPPED"}
 \* subscription pattern p matches topic t (literal equality, or the one regular expression "t." matching every user topic)
@@ -67,9 +71,11 @@ RegSeq(s) == SelectSeq(Order, LAMBDA m : m \in Registered(s))
 \* old: object of a released context; subs: set of [pat, pr] (priority "L" | "N" | "H"), one per pattern;
 \* bq/blen: events held back by batching and the configured batch size; stash; hs: handlers installed with become (top first)
 \* src: registered sources, a set of [k, key, os, ac] with at most one element per (k, key)
-Mod0 == [st |-> "none", reg |-> FALSE, old |-> FALSE, fl |-> {}, src |-> {}, pipe |-> <<>>, subs |-> {}, bq |-> <<>>, blen |-> 0, stash |-> <<>>, hs |-> <<>>]
+\* tb: token bucket [rate (0 = no limit), burst, tok]; bt: a batch timeout is configured (internal timer)
+Mod0 == [st |-> "none", reg |-> FALSE, old |-> FALSE, fl |-> {}, src |-> {}, tb |-> [rate |-> 0, burst |-> 0, tok |-> 0, tmr |-> FALSE], bt |-> FALSE, pipe |-> <<>>, subs |-> {}, bq |-> <<>>, blen |-> 0, stash |-> <<>>, hs |-> <<>>]
 NewMod(m, i) == [Mod0 EXCEPT !.st = "idle", !.reg = TRUE, !.fl = Flags[m][i]]
-Init0 == [ctx |-> [st |-> "none", quit |-> FALSE, qcode |-> 0, fin |-> FALSE],
+Ctx0 == [st |-> "none", quit |-> FALSE, qcode |-> 0, fin |-> FALSE, tick |-> 0]
+Init0 == [ctx |-> Ctx0,
           run |-> 0,
           mod |-> [m \in Mods |-> Mod0],
           stack |-> <<>>,
@@ -79,12 +85,13 @@ Init0 == [ctx |-> [st |-> "none", quit |-> FALSE, qcode |-> 0, fin |-> FALSE],
           rdy |-> {},                                  \* user descriptors (fd keys) that are readable
           due |-> {},                                  \* <<module, key>>: timers that expired and were not consumed yet
           ufd |-> [f \in Keys |-> "open"],             \* user descriptors: "open" | "closed" (closed by the library: auto-close)
+          idue |-> {},                                 \* internal timers that expired: <<m, "tb">>, <<m, "bt">>, <<"", "tick">>
           errno |-> 0]
 \* canned set-ups (the driver executes the same public calls before every program and checks it arrived here):
 \*  "loop2" / "loop3": context registered, all modules registered, first dispatch done (loop started, modules RUNNING)
 Running0(m) == [Mod0 EXCEPT !.st = "running", !.reg = TRUE, !.fl = Flags[m][1]]
 InitOf(x) == IF x = "" THEN Init0
-             ELSE [Init0 EXCEPT !.ctx = [st |-> "looping", quit |-> FALSE, qcode |-> 0, fin |-> FALSE],
+             ELSE [Init0 EXCEPT !.ctx = [Ctx0 EXCEPT !.st = "looping"],
                                 !.run = Cardinality(Mods),
                                 !.mod = [m \in Mods |-> Running0(m)]]
 Init == S = InitOf(Setup)
@@ -173,7 +180,12 @@ DropDue(due, m) == {d \in due : d[1] # m}
 ResetMod(s, m) == [s EXCEPT !.pay = ReleaseAll(ReleaseAll(s.pay, s.mod[m].bq), s.mod[m].stash),
                              !.ufd = CloseAc(s.ufd, s.mod[m].src),
                              !.mod[m].src = {}, !.due = DropDue(s.due, m),
+                             !.mod[m].tb = [rate |-> 0, burst |-> 0, tok |-> 0, tmr |-> FALSE], !.mod[m].bt = FALSE,
                              !.mod[m].subs = {}, !.mod[m].bq = <<>>, !.mod[m].blen = 0, !.mod[m].stash = <<>>, !.mod[m].hs = <<>>]
+
+\* token bucket: with a bucket configured (rate # 0) every rate-limited call needs - and takes - one token
+Limited(s, m) == s.mod[m].tb.rate # 0
+Spend(s, m) == IF Limited(s, m) THEN [s EXCEPT !.mod[m].tb.tok = @ - 1] ELSE s
 
 \* one step of library code for the frame on top of the stack (never called with a "cb" frame on top)
 Step(s) ==
@@ -182,8 +194,12 @@ Step(s) ==
         r == Pop(s)
     IN
     CASE f.k = "start" ->        \* start(mod, starting = f.a): pipe, sources armed, RUNNING, counter, on_start
-            LET s1 == [r EXCEPT !.mod[m].st = "running", !.run = r.run + 1,
-                                !.mod[m].pipe = IF f.a THEN <<>> ELSE r.mod[m].pipe]
+            \* (re)starting registers the mailbox as an internal source, which is a rate-limited call too: without a token the
+            \* start fails with EAGAIN and the module stays as it was
+            IF f.a /\ Limited(r, m) /\ r.mod[m].tb.tok = 0 THEN Ret(r, EAGAIN) ELSE
+            LET r1 == IF f.a THEN Spend(r, m) ELSE r
+                s1 == [r1 EXCEPT !.mod[m].st = "running", !.run = r.run + 1,
+                                 !.mod[m].pipe = IF f.a THEN <<>> ELSE r.mod[m].pipe]
             IN IF f.a /\ HasHook(m, "start")
                  THEN EnterCb(Push(s1, Fr("start2", m, TRUE, 0)), m, "start", <<>>)
                  ELSE Push(s1, Fr("start2", m, TRUE, 0))
@@ -198,6 +214,7 @@ Step(s) ==
                                 !.mod[m].pipe = IF f.a THEN <<>> ELSE r.mod[m].pipe,
                                 !.run = IF r.mod[m].st = "running" THEN r.run - 1 ELSE r.run,
                                 !.due = DropDue(r.due, m),                             \* its timers are disarmed (re-armed from scratch on resume)
+                                !.idue = {d \in r.idue : d[1] # m},
                                 !.mod[m].st = IF f.a THEN "stopped" ELSE "paused"]
             IN IF ~f.a THEN Ret(Sys(s1, "MOD_STOPPED", m), 0)
                ELSE LET s2 == ResetMod(s1, m) IN
@@ -244,7 +261,14 @@ Step(s) ==
                  IN \* An event whose module left RUNNING earlier in this same batch (or whose source is gone) is not handed
                     \* over (C03: "only while that module is RUNNING"); it stays pending.
                     LET x == e[1] IN
-                    IF r.mod[x].st # "running" THEN Push(r, [f EXCEPT !.b = Tail(f.b)])
+                    IF e[2] = "tick" THEN Sys([rest EXCEPT !.idue = @ \ {<<"", "tick">>}], "CTX_TICK", "ctx")     \* the context's tick
+                    ELSE IF r.mod[x].st # "running" THEN Push(r, [f EXCEPT !.b = Tail(f.b)])
+                    ELSE IF e[2] = "tb" THEN                         \* refill: one token, up to the burst
+                         [rest EXCEPT !.idue = @ \ {<<x, "tb">>},
+                                      !.mod[x].tb.tok = IF r.mod[x].tb.tok < r.mod[x].tb.burst THEN @ + 1 ELSE @]
+                    ELSE IF e[2] = "bt" THEN                         \* batch timeout: whatever is pending is handed over
+                         LET s1 == [rest EXCEPT !.idue = @ \ {<<x, "bt">>}] IN
+                         IF r.mod[x].bq = <<>> THEN s1 ELSE Invoke([s1 EXCEPT !.mod[x].bq = <<>>], x, r.mod[x].bq)
                     ELSE IF e[2] = "ps" THEN
                        \* a module's mailbox: read ONE message
                        IF r.mod[x].pipe = <<>> THEN Push(r, [f EXCEPT !.b = Tail(f.b)])
@@ -264,7 +288,7 @@ Step(s) ==
       [] f.k = "evt2" ->         \* after the handler: the events of that invocation are released
             [r EXCEPT !.pay = ReleaseAll(r.pay, f.ev)]
       [] f.k = "lstop" ->        \* loop_stop(): IDLE, "loop stopped" notification, flush of every mailbox
-            LET s1 == Sys([r EXCEPT !.ctx.st = "idle"], "CTX_STOPPED", "ctx")
+            LET s1 == Sys([r EXCEPT !.ctx.st = "idle", !.idue = @ \ {<<"", "tick">>}], "CTX_STOPPED", "ctx")
             IN Push(Push(s1, Fr("lstop2", NoMod, 0, 0)), Fr("flush", NoMod, 0, RegSeq(s1)))
       [] f.k = "flush" ->        \* flush_pubsub_msgs for each module: RUNNING gets everything in one invocation, others lose it
             IF f.b = <<>> THEN r
@@ -317,10 +341,16 @@ ModRefused(m) == S.mod[m].st = "zombie" \/ NoCtx
 Do(s) == S' = Run(s)
 Refuse(code) == S' = [S EXCEPT !.ret = code]
 
+(* ------------------------------ token bucket ------------------------------ *)
+\* M_MOD_CONSUME_TOKEN: with a bucket configured (rate # 0) every rate-limited call needs - and takes - one token
+NoTok(m) == Limited(S, m) /\ S.mod[m].tb.tok = 0
+\* a call that passed its guards: without a token it fails with EAGAIN and no effect, else it spends one and has effect s
+Rated(m, s) == IF NoTok(m) THEN Refuse(EAGAIN) ELSE Do(Spend(s, m))
+
 (* ------------------------------ context calls ------------------------------ *)
 CtxRegister == /\ Can("CtxRegister")
                /\ IF S.ctx.st # "none" THEN Refuse(EEXIST)
-                  ELSE Do([S EXCEPT !.ctx = [st |-> "idle", quit |-> FALSE, qcode |-> 0, fin |-> FALSE], !.run = 0, !.ret = 0])
+                  ELSE Do([S EXCEPT !.ctx = [Ctx0 EXCEPT !.st = "idle"], !.run = 0, !.ret = 0])
 
 CtxDeregister == /\ Can("CtxDeregister")
                  /\ IF NoCtx \/ S.ctx.st # "idle" THEN Refuse(NEG)
@@ -338,10 +368,11 @@ CtxQuit(c) == /\ Can("CtxQuit")
 Ready(s) == {<<m, "ps", 0>> : m \in {x \in Mods : s.mod[x].st = "running" /\ s.mod[x].pipe # <<>>}}
             \cup {e \in Mods \X {"fd"} \X Keys : s.mod[e[1]].st = "running" /\ HasSrc(s, e[1], "fd", e[3]) /\ e[3] \in s.rdy}
             \cup {e \in Mods \X {"tmr"} \X Keys : s.mod[e[1]].st = "running" /\ HasSrc(s, e[1], "tmr", e[3]) /\ <<e[1], e[3]>> \in s.due}
+            \cup {<<d[1], d[2], 0>> : d \in s.idue}                   \* expired internal timers: refill, batch timeout, tick
 IsPerm(b, T) == Len(b) = Cardinality(T) /\ {b[i] : i \in 1..Len(b)} = T
 Batches(s) == IF Ready(s) = {} THEN {<<>>}
               ELSE UNION {{b \in [1..Cardinality(T) -> T] : IsPerm(b, T)} : T \in {U \in (SUBSET Ready(s)) \ {{}} : Cardinality(U) <= MaxBatch}}
-AllEvents == (Mods \X {"ps"} \X {0}) \cup (Mods \X {"fd", "tmr"} \X Keys)
+AllEvents == {e \in (Mods \X {"ps", "tb", "bt"} \X {0}) \cup (Mods \X {"fd", "tmr"} \X Keys) \cup {<<"", "tick", 0>>} : e[2] \in EvKinds}
 AllBatches == UNION {{b \in [1..Cardinality(T) -> T] : IsPerm(b, T)} : T \in {U \in SUBSET AllEvents : Cardinality(U) <= MaxBatch}}
 \* m_ctx_dispatch(): start / deliver one poll batch b / stop
 Dispatch(b) == /\ Can("Dispatch") /\ AtTop
@@ -373,13 +404,13 @@ ModDeregister(m) ==
 \* a state setter is refused on a zombie / foreign module and outside its source states
 StateRefused(m, from) == ModRefused(m) \/ S.mod[m].st \notin from
 ModStart(m)  == /\ Can("ModStart") /\ m \in Targets /\ Handle(m)
-                /\ IF StateRefused(m, {"idle", "stopped"}) THEN Refuse(NEG) ELSE Do(Push(S, Fr("start", m, TRUE, 0)))
+                /\ IF StateRefused(m, {"idle", "stopped"}) THEN Refuse(NEG) ELSE Rated(m, Push(S, Fr("start", m, TRUE, 0)))
 ModResume(m) == /\ Can("ModResume") /\ m \in Targets /\ Handle(m)
-                /\ IF StateRefused(m, {"paused"}) THEN Refuse(NEG) ELSE Do(Push(S, Fr("start", m, FALSE, 0)))
+                /\ IF StateRefused(m, {"paused"}) THEN Refuse(NEG) ELSE Rated(m, Push(S, Fr("start", m, FALSE, 0)))
 ModPause(m)  == /\ Can("ModPause") /\ m \in Targets /\ Handle(m)
-                /\ IF StateRefused(m, {"running"}) THEN Refuse(NEG) ELSE Do(Push(S, Fr("stop", m, FALSE, 0)))
+                /\ IF StateRefused(m, {"running"}) THEN Refuse(NEG) ELSE Rated(m, Push(S, Fr("stop", m, FALSE, 0)))
 ModStop(m)   == /\ Can("ModStop") /\ m \in Targets /\ Handle(m)
-                /\ IF StateRefused(m, {"running", "paused"}) THEN Refuse(NEG) ELSE Do(Push(S, Fr("stop", m, TRUE, 0)))
+                /\ IF StateRefused(m, {"running", "paused"}) THEN Refuse(NEG) ELSE Rated(m, Push(S, Fr("stop", m, TRUE, 0)))
 
 \* the program drops its reference to a zombie module
 DropRef(m) == /\ Can("DropRef") /\ S.mod[m].st = "zombie"
@@ -392,12 +423,12 @@ SubRefused(m) == ModRefused(m) \/ "DENYSUB" \in S.mod[m].fl
 Tell(m, r, p, auto) ==
     /\ Can("Tell") /\ m \in Senders /\ Handle(m) /\ Handle(r) /\ FreePay(S) # {} /\ p = MinFree(S)
     /\ IF PubRefused(m) \/ S.mod[r].old THEN Refuse(NEG)             \* (a module of another / released context cannot be addressed)
-       ELSE Do(Ret(Send(S, IF Active(S, r) THEN <<r>> ELSE <<>>, p, auto, Msg(p, m, "", FALSE)), 0))
+       ELSE Rated(m, Ret(Send(S, IF Active(S, r) THEN <<r>> ELSE <<>>, p, auto, Msg(p, m, "", FALSE)), 0))
 
 Publish(m, t, p, auto) ==
     /\ Can("Publish") /\ m \in Senders /\ Handle(m) /\ FreePay(S) # {} /\ p = MinFree(S) /\ t \in Topics
     /\ IF PubRefused(m) THEN Refuse(NEG)
-       ELSE Do(Ret(Send(S, Subscribers(S, t), p, auto, Msg(p, m, t, FALSE)), 0))
+       ELSE Rated(m, Ret(Send(S, Subscribers(S, t), p, auto, Msg(p, m, t, FALSE)), 0))
 
 \* publishing on the reserved prefix is always refused
 PublishSys(m) == /\ Can("PublishSys") /\ Handle(m) /\ Refuse(NEG)
@@ -405,36 +436,38 @@ PublishSys(m) == /\ Can("PublishSys") /\ Handle(m) /\ Refuse(NEG)
 Broadcast(m, p, auto) ==
     /\ Can("Broadcast") /\ m \in Senders /\ Handle(m) /\ FreePay(S) # {} /\ p = MinFree(S)
     /\ IF PubRefused(m) THEN Refuse(NEG)
-       ELSE Do(Ret(Send(S, AllActive(S), p, auto, Msg(p, m, "", FALSE)), 0))
+       ELSE Rated(m, Ret(Send(S, AllActive(S), p, auto, Msg(p, m, "", FALSE)), 0))
 
 Pill(m, r) ==
     /\ Can("Pill") /\ m \in Senders /\ Handle(m) /\ Handle(r)
     /\ IF PubRefused(m) \/ S.mod[r].st # "running" THEN Refuse(NEG)
-       ELSE Do(Ret(Deliver(S, <<r>>, Msg(0, m, "PILL", TRUE)), 0))
+       ELSE Rated(m, Ret(Deliver(S, <<r>>, Msg(0, m, "PILL", TRUE)), 0))
 
 \* a repeated subscription is updated in place (one subscription per pattern)
 Subscribe(m, q, pr) ==
     /\ Can("Subscribe") /\ m \in Targets /\ Handle(m) /\ q \in Pats /\ pr \in Prios
     /\ IF SubRefused(m) THEN Refuse(NEG)
-       ELSE Do([S EXCEPT !.mod[m].subs = {x \in @ : x.pat # q} \cup {[pat |-> q, pr |-> pr]}, !.ret = 0])
+       ELSE Rated(m, [S EXCEPT !.mod[m].subs = {x \in @ : x.pat # q} \cup {[pat |-> q, pr |-> pr]}, !.ret = 0])
 
 Unsubscribe(m, q) ==
     /\ Can("Unsubscribe") /\ m \in Targets /\ Handle(m) /\ q \in Pats
-    /\ IF SubRefused(m) \/ q \notin SubPats(S, m) THEN Refuse(NEG)
-       ELSE Do([S EXCEPT !.mod[m].subs = {x \in @ : x.pat # q}, !.ret = 0])
+    /\ IF SubRefused(m) THEN Refuse(NEG)
+       ELSE IF q \notin SubPats(S, m) THEN Rated(m, Ret(S, NEG))                  \* (the token is taken before the lookup)
+       ELSE Rated(m, [S EXCEPT !.mod[m].subs = {x \in @ : x.pat # q}, !.ret = 0])
 
 (* ------------------------------ batching, stash, become ------------------------------ *)
 SetBatchSize(m, n) ==
     /\ Can("SetBatchSize") /\ m \in Targets /\ Handle(m) /\ n \in BatchSizes
-    /\ IF ModRefused(m) THEN Refuse(NEG) ELSE Do([S EXCEPT !.mod[m].blen = n, !.ret = 0])
+    /\ IF ModRefused(m) THEN Refuse(NEG) ELSE Rated(m, [S EXCEPT !.mod[m].blen = n, !.ret = 0])
 
 \* inside a handler of m: retain the i-th event of this invocation (not a high priority one) beyond the invocation
 Stash(m, i) ==
     /\ Can("Stash") /\ InCb /\ Top(S).a = "evt" /\ Top(S).m = m /\ i \in 1..Len(Top(S).ev) /\ i \notin Top(S).sm
     /\ LET e == Top(S).ev[i] IN
-       IF ModRefused(m) \/ S.mod[m].st # "running" \/ e.pr = "H" THEN Refuse(NEG)
-       ELSE Do([S EXCEPT !.mod[m].stash = Append(@, e), !.stack[1].sm = @ \cup {i},
-                         !.pay = IF e.p = 0 THEN @ ELSE [@ EXCEPT ![e.p].copies = @ + 1], !.ret = 0])
+       IF ModRefused(m) \/ S.mod[m].st # "running" THEN Refuse(NEG)
+       ELSE IF e.pr = "H" THEN Rated(m, Ret(S, NEG))                               \* (the token is taken before the priority check)
+       ELSE Rated(m, [S EXCEPT !.mod[m].stash = Append(@, e), !.stack[1].sm = @ \cup {i},
+                               !.pay = IF e.p = 0 THEN @ ELSE [@ EXCEPT ![e.p].copies = @ + 1], !.ret = 0])
 
 \* hand the n oldest stashed events to the current handler, in one invocation; returns how many
 Unstash(m, n) ==
@@ -443,18 +476,19 @@ Unstash(m, n) ==
        ELSE LET k == IF n < Len(S.mod[m].stash) THEN n ELSE Len(S.mod[m].stash)
                 evs == SubSeq(S.mod[m].stash, 1, k)
                 s1 == [S EXCEPT !.mod[m].stash = SubSeq(@, k + 1, Len(@))]
-            IN IF k = 0 THEN Do(Ret(s1, 0))
-               ELSE Do(Invoke(Push(s1, Fr("retval", m, k, 0)), m, evs))
+            IN IF k = 0 THEN Rated(m, Ret(s1, 0))
+               ELSE Rated(m, Invoke(Push(s1, Fr("retval", m, k, 0)), m, evs))
 
 Become(m, h) ==
     /\ Can("Become") /\ m \in Targets /\ Handle(m) /\ h \in HandlerIds /\ Len(S.mod[m].hs) < 2
     /\ IF ModRefused(m) \/ S.mod[m].st # "running" THEN Refuse(NEG)
-       ELSE Do([S EXCEPT !.mod[m].hs = <<h>> \o @, !.ret = 0])
+       ELSE Rated(m, [S EXCEPT !.mod[m].hs = <<h>> \o @, !.ret = 0])
 
 Unbecome(m) ==
     /\ Can("Unbecome") /\ m \in Targets /\ Handle(m)
-    /\ IF ModRefused(m) \/ S.mod[m].st # "running" \/ S.mod[m].hs = <<>> THEN Refuse(NEG)
-       ELSE Do([S EXCEPT !.mod[m].hs = Tail(@), !.ret = 0])
+    /\ IF ModRefused(m) \/ S.mod[m].st # "running" THEN Refuse(NEG)
+       ELSE IF S.mod[m].hs = <<>> THEN Rated(m, Ret(S, NEG))                       \* (the token is taken before the pop)
+       ELSE Rated(m, [S EXCEPT !.mod[m].hs = Tail(@), !.ret = 0])
 
 (* ------------------------------ event sources ------------------------------ *)
 \* register_mod_src(): a key that is present is refused with EEXIST (and nothing else happens: in particular an auto-close
@@ -464,14 +498,15 @@ SrcRegister(m, k, key, o) ==
     /\ (k = "fd" => S.ufd[key] = "open") /\ (k # "fd" => ~o.ac)
     /\ (k = "fd" => \A x \in Mods \ {m} : ~HasSrc(S, x, "fd", key))       \* (precondition: one owner per user descriptor)
     /\ IF ModRefused(m) THEN Refuse(NEG)
-       ELSE IF HasSrc(S, m, k, key) THEN Refuse(EEXIST)
-       ELSE Do([S EXCEPT !.mod[m].src = @ \cup {[k |-> k, key |-> key, os |-> (o.os \/ k \in {"task", "thr"}), ac |-> o.ac]}, !.ret = 0])
+       ELSE IF HasSrc(S, m, k, key) THEN Rated(m, Ret(S, EEXIST))                 \* (the token is taken before the lookup)
+       ELSE Rated(m, [S EXCEPT !.mod[m].src = @ \cup {[k |-> k, key |-> key, os |-> (o.os \/ k \in {"task", "thr"}), ac |-> o.ac]}, !.ret = 0])
 
 SrcDeregister(m, k, key) ==
     /\ Can("SrcDeregister") /\ Handle(m) /\ m \in Targets /\ k \in Kinds /\ key \in Keys
-    /\ IF ModRefused(m) \/ k = "task" \/ ~HasSrc(S, m, k, key) THEN Refuse(NEG)
+    /\ IF ModRefused(m) \/ k = "task" THEN Refuse(NEG)
+       ELSE IF ~HasSrc(S, m, k, key) THEN Rated(m, Ret(S, NEG))
        ELSE LET src == SrcOf(S, m, k, key) IN
-            Do([S EXCEPT !.mod[m].src = @ \ {src}, !.ufd = CloseAc(S.ufd, {src}),
+            Rated(m, [S EXCEPT !.mod[m].src = @ \ {src}, !.ufd = CloseAc(S.ufd, {src}),
                          !.due = IF k = "tmr" THEN @ \ {<<m, key>>} ELSE @, !.ret = 0])
 
 \* environment: a user descriptor becomes readable / is drained / a closed one is replaced by a fresh one; a timer expires
@@ -483,6 +518,35 @@ FdReopen(f) == /\ Can("FdReopen") /\ AtTop /\ f \in Keys /\ S.ufd[f] = "closed"
                /\ S' = [S EXCEPT !.ufd[f] = "open"]
 TmrFire(m, key) == /\ Can("TmrFire") /\ AtTop /\ key \in Keys /\ S.mod[m].st = "running" /\ HasSrc(S, m, "tmr", key) /\ <<m, key>> \notin S.due
                    /\ S' = [S EXCEPT !.due = @ \cup {<<m, key>>}]
+\* m_mod_set_tokenbucket(): the old refill timer goes (a rate-limited call under the old bucket), the new bucket starts full,
+\* its refill timer is registered (a rate-limited call under the new bucket: with burst 0 it fails with EAGAIN)
+SetTokenBucket(m, v) ==
+    /\ Can("SetTokenBucket") /\ Handle(m) /\ m \in Targets /\ v \in TbVals
+    /\ ~NoTok(m)                                              \* (modelling bound: not re-configured while exhausted)
+    /\ IF ModRefused(m) THEN Refuse(NEG)
+       ELSE LET s0 == [S EXCEPT !.idue = @ \ {<<m, "tb">>}] IN
+            IF v[1] = 0 THEN Do([s0 EXCEPT !.mod[m].tb = [rate |-> 0, burst |-> 0, tok |-> 0, tmr |-> FALSE], !.ret = 0])
+            ELSE IF v[2] = 0 THEN Do([s0 EXCEPT !.mod[m].tb = [rate |-> v[1], burst |-> 0, tok |-> 0, tmr |-> FALSE], !.ret = EAGAIN])
+            ELSE Do([s0 EXCEPT !.mod[m].tb = [rate |-> v[1], burst |-> v[2], tok |-> v[2] - 1, tmr |-> TRUE], !.ret = 0])
+\* the refill timer expires (armed only while the module is RUNNING)
+TbTick(m) == /\ Can("TbTick") /\ AtTop /\ S.mod[m].st = "running" /\ S.mod[m].tb.tmr /\ <<m, "tb">> \notin S.idue
+             /\ S' = [S EXCEPT !.idue = @ \cup {<<m, "tb">>}]
+
+\* m_mod_set_batch_timeout(): with no batch size configured only the timeout triggers (size = "infinite")
+SetBatchTimeout(m, on) ==
+    /\ Can("SetBatchTimeout") /\ Handle(m) /\ m \in Targets /\ ~Limited(S, m)       \* (modelling bound: not combined with a token bucket)
+    /\ IF ModRefused(m) THEN Refuse(NEG)
+       ELSE IF on THEN Do([S EXCEPT !.mod[m].bt = TRUE, !.mod[m].blen = IF @ = 0 THEN 99 ELSE @, !.idue = @ \ {<<m, "bt">>}, !.ret = 0])
+       ELSE Do([S EXCEPT !.mod[m].bt = FALSE, !.idue = @ \ {<<m, "bt">>}, !.ret = 0])
+BtFire(m) == /\ Can("BtFire") /\ AtTop /\ S.mod[m].st = "running" /\ S.mod[m].bt /\ <<m, "bt">> \notin S.idue
+             /\ S' = [S EXCEPT !.idue = @ \cup {<<m, "bt">>}]
+
+\* m_ctx_set_tick(): 0 = off; the tick timer is armed while the context loops
+CtxSetTick(v) == /\ Can("CtxSetTick") /\ v \in TickVals
+                 /\ IF NoCtx THEN Refuse(NEG) ELSE Do([S EXCEPT !.ctx.tick = v, !.idue = @ \ {<<"", "tick">>}, !.ret = 0])
+TickFire == /\ Can("TickFire") /\ AtTop /\ S.ctx.st = "looping" /\ S.ctx.tick # 0 /\ <<"", "tick">> \notin S.idue
+            /\ S' = [S EXCEPT !.idue = @ \cup {<<"", "tick">>}]
+
 \* a callback (or the program) leaves a value in errno: no effect on anything the library does
 SetErrno(v) == /\ Can("SetErrno") /\ v \in Errnos /\ S.errno # v
                /\ S' = [S EXCEPT !.errno = v]
@@ -514,6 +578,8 @@ Next == \/ CtxRegister \/ CtxDeregister \/ CtxFinalize
         \/ \E m \in Mods, k \in Kinds, key \in Keys : SrcDeregister(m, k, key) \/ \E o \in SrcOpts : SrcRegister(m, k, key, o)
         \/ \E f \in Keys : FdReady(f) \/ FdDrain(f) \/ FdReopen(f) \/ \E m \in Mods : TmrFire(m, f)
         \/ \E v \in Errnos : SetErrno(v)
+        \/ \E m \in Mods : TbTick(m) \/ BtFire(m) \/ (\E v \in TbVals : SetTokenBucket(m, v)) \/ (\E on \in BOOLEAN : SetBatchTimeout(m, on))
+        \/ TickFire \/ \E v \in TickVals : CtxSetTick(v)
         \/ \E v \in BOOLEAN : CbReturn(v)
 Spec == Init /\ [][Next]_vars
 
@@ -560,6 +626,12 @@ C09_KeyedSet == \A m \in Mods : \A x, y \in S.mod[m].src : (x.k = y.k /\ x.key =
 C09_DroppedOnStop == \A m \in Mods : S.mod[m].st \in {"zombie", "none"} => S.mod[m].src = {}
 \* C20: a descriptor is closed by the library only through auto-close; one that is registered is open
 C20_RegisteredOpen == \A m \in Mods : \A x \in S.mod[m].src : x.k = "fd" => S.ufd[x.key] = "open"
+\* C18: never more tokens than the burst; no limit when the module is not between start and stop unless configured meanwhile
+C18_TokensBounded == \A m \in Mods : Limited(S, m) => (S.mod[m].tb.tok >= 0 /\ S.mod[m].tb.tok <= S.mod[m].tb.burst)
+\* C18: a successful rate-limited call takes exactly one token (two for a start: the call and its mailbox registration);
+\* refills add at most one; nothing else changes the count (action property over a module that stays limited)
+C18_Accounting == [][\A m \in Mods : (Limited(S, m) /\ Limited(S', m) /\ S.mod[m].tb.burst = S'.mod[m].tb.burst) =>
+                         S'.mod[m].tb.tok - S.mod[m].tb.tok \in -12..1]_vars
 \* C16: high priority events are never stashed
 C16_NoHighStashed == \A m \in Mods : \A i \in 1..Len(S.mod[m].stash) : S.mod[m].stash[i].pr # "H"
 \* state constraint for the pub/sub configuration: keep the population of registered-but-never-started modules small
